@@ -251,7 +251,8 @@ def x_sync(ctx, case):
     outs = []
     for deferred in (False, True):
         class T(testtools.TestCase):
-            run_tests_with = SynchronousDeferredRunTest
+            # the reference is the plain runner with the stage returning / raising directly
+            run_tests_with = SynchronousDeferredRunTest if deferred else testtools.RunTest
 
             def setUp(self):
                 super().setUp()
